@@ -468,6 +468,9 @@ func c17FreeReset(c *Ctx) int {
 						if s.Len() != 0 || !s.IsEmpty() {
 							c.Violation("Reset:not-empty", fmt.Sprintf("%s: Len()=%d afterwards (content %s)", desc, s.Len(), showList(contents(s))), nil, ln)
 						}
+						if held := stackage.VerifDump(s).Spare; held > d.Spare {
+							c.Violation("Reset:element-still-held", fmt.Sprintf("%s: %d of the removed values are still referenced by the stack (beyond its length) afterwards", desc, held-d.Spare), nil, ln)
+						}
 						if after := stackage.VerifDump(s).Key(false); after != before {
 							c.Violation("Reset:configuration-changed", fmt.Sprintf("%s changed the configuration:\n before %s\n after  %s", desc, before, after), nil, ln)
 						}
@@ -539,6 +542,9 @@ func c17FreeReset(c *Ctx) int {
 					}
 					if s.Len() != 0 || !s.IsEmpty() {
 						c.Violation("Reset:not-empty", fmt.Sprintf("%s: Len()=%d afterwards", desc, s.Len()), nil, ln)
+					}
+					if held := stackage.VerifDump(s).Spare; held > d.Spare {
+						c.Violation("Reset:element-still-held", fmt.Sprintf("%s: %d of the removed values are still referenced by the stack (beyond its length) afterwards", desc, held-d.Spare), nil, ln)
 					}
 					a := stackage.VerifDump(s)
 					a.SliceCap = 0
@@ -617,6 +623,26 @@ func c17FreeReset(c *Ctx) int {
 			c.Violation("Free:failed", fmt.Sprintf("Free on a writable %s: error %v panic %q", what, err, p), nil, 0)
 			continue
 		}
+		// life goes on: other instances are made (constructors, Init, Marshal decoding a CONDITION row) and
+		// written to; they have nothing to do with the surviving copy, nor it with them
+		var fresh []any
+		var freshBefore []string
+		if p := noPanic(func() {
+			nc := stackage.Cond("fresh", stackage.Gt, "other").SetID("new").SetParen(true)
+			var zi stackage.Condition
+			zi.Init()
+			zi.SetKeyword("zz").SetOperator(stackage.Le).SetExpression(3)
+			var mz stackage.Stack
+			mz.Marshal("AND", []any{"CONDITION", "mk", stackage.Eq, "mv"}, "tail")
+			ns := stackage.Basic(4).SetID("new-stack").Push("n1")
+			fresh = []any{nc, zi, mz, ns}
+			for _, f := range fresh {
+				freshBefore = append(freshBefore, observe(f, false))
+			}
+		}); p != "" {
+			c.Violation("panic:after-Free", fmt.Sprintf("making new instances after Free on a %s panicked: %s", what, p), nil, 0)
+			continue
+		}
 		var after, ha string
 		if p := noPanic(func() { after, ha = observe(cp, false), holder.String() }); p != "" {
 			c.Violation("Free:earlier-copy-unusable", fmt.Sprintf("after Free on one handle of a %s, an earlier copy of that handle (held by a variable and by a Stack) panics: %s", what, p), nil, 0)
@@ -624,6 +650,19 @@ func c17FreeReset(c *Ctx) int {
 		}
 		if after != before || ha != hb {
 			c.Violation("Free:earlier-copy-changed", fmt.Sprintf("after Free on one handle of a %s, an earlier copy of that handle answers differently:\n before %s | %s\n after  %s | %s", what, before, hb, after, ha), nil, 0)
+		}
+		// ... and a write through the surviving copy reaches none of the instances made since
+		switch x := cp.(type) {
+		case stackage.Condition:
+			x.SetKeyword("rewritten").SetID("rewritten").SetReadOnly(true)
+		case stackage.Stack:
+			x.SetID("rewritten").Push("more").SetReadOnly(true)
+		}
+		for i, f := range fresh {
+			if now := observe(f, false); now != freshBefore[i] {
+				c.Violation("Free:new-instance-tied-to-freed-one", fmt.Sprintf("after Free on one handle of a %s, a write through an earlier copy of that handle changed an instance made afterwards:\n before %s\n after  %s", what, freshBefore[i], now), nil, 0)
+				break
+			}
 		}
 	}
 	cd := stackage.Cond("k", stackage.Eq, "v").SetReadOnly(true)
